@@ -90,6 +90,15 @@ class Gen:
         return out
 
     def value(self, const=False, depth=0):
+        if const and getattr(self, "_violate", False) and self._violated == 0 and self.chance(0.25):
+            self._violated = 1
+            var = [T("Dollar"), self.name()]
+            k = self.rng.randrange(3)
+            if k == 0:
+                return var
+            if k == 1:
+                return [T("BracketOpen")] + var + [T("BracketClose")]
+            return [T("CurlyOpen"), self.name(), T("Colon")] + var + [T("CurlyClose")]
         r = self.rng.random()
         if depth < self.max_depth and r < 0.15:
             out = [T("BracketOpen")]
@@ -340,6 +349,72 @@ def gen_value(rng, const=False, max_depth=3):
 
 def gen_type(rng):
     return Gen(rng).type_ref()
+
+
+# ---------------------------------------------------------------------------------------------
+# `Const` positions: mutants that put a VARIABLE where the grammar demands Value[Const]
+# (default values; arguments of directives on variable definitions; arguments of every type-system directive).
+# Every mutant is OUTSIDE the grammar: a parser must reject it.
+
+CONST_VARIANTS = ["$v", "[$v]", "{k: $v}", "[1, {k: [2, $v]}]", "{a: {b: $v}}"]
+
+# (label, template with one %s at the constant value, needs allow_type_system)
+CONST_TEMPLATES = [
+    ("variable-default", "query ($a: Int = %s) { f }", False),
+    ("variable-directive", "query ($a: Int @d(x: %s)) { f }", False),
+    ("variable-default+directive", "query Q($a: [Int] = [1] @d(x: %s) @e, $b: T) @x(y: $a) { f }", False),
+    ("fragment-variable-directive", "fragment F($a: Int = 1 @d(x: %s)) on T { f }", False),
+    ("fragment-variable-default", "fragment F($a: Int = %s) on T { f }", False),
+    ("schema-directive", "schema @d(x: %s) { query: Q }", True),
+    ("scalar-directive", "scalar S @d(x: %s)", True),
+    ("object-directive", "type T implements I @d(x: %s) { f: Int }", True),
+    ("field-definition-directive", "type T { f(a: Int): Int @d(x: %s) }", True),
+    ("argument-default", "type T { f(a: Int = %s): Int }", True),
+    ("argument-directive", "type T { f(a: Int = 1 @d(x: %s)): Int }", True),
+    ("interface-directive", "interface I @d(x: %s) { f: Int }", True),
+    ("union-directive", "union U @d(x: %s) = A | B", True),
+    ("enum-directive", "enum E @d(x: %s) { A }", True),
+    ("enum-value-directive", "enum E { A @d(x: %s) B }", True),
+    ("input-directive", "input I @d(x: %s) { a: Int }", True),
+    ("input-field-default", "input I { a: Int = %s }", True),
+    ("input-field-directive", "input I { a: Int @d(x: %s) }", True),
+    ("directive-definition-argument-default", "directive @d(a: Int = %s) on FIELD", True),
+    ("directive-definition-argument-directive", "directive @d(a: Int @e(x: %s)) on FIELD", True),
+    ("extend-schema-directive", "extend schema @d(x: %s)", True),
+    ("extend-scalar-directive", "extend scalar S @d(x: %s)", True),
+    ("extend-object-directive", "extend type T @d(x: %s)", True),
+    ("extend-interface-directive", "extend interface I @d(x: %s) { f: Int }", True),
+    ("extend-union-directive", "extend union U @d(x: %s) = A", True),
+    ("extend-enum-directive", "extend enum E @d(x: %s)", True),
+    ("extend-input-directive", "extend input I @d(x: %s) { a: Int = %s }", True),
+]
+
+
+def const_variable_mutants():
+    """[(label, variant, text, needs_type_system, control_text)]: `text` has a variable in a Const position (must be
+    rejected); `control_text` is the same text with a constant (derives from the grammar when the flags allow it)"""
+    out = []
+    for label, tpl, ts in CONST_TEMPLATES:
+        n = tpl.count("%s")
+        control = tpl % (("1",) * n)
+        for v in CONST_VARIANTS:
+            out.append((label, v, tpl % ((v,) + ("1",) * (n - 1)), ts, control))
+            if n > 1:
+                out.append((label, v, tpl % (("1",) * (n - 1) + (v,)), ts, control))
+    return out
+
+
+def gen_const_violation(rng, type_system=True, fragment_variables=False, size=3, tries=50):
+    """a generated document (token list) in which ONE constant value was replaced by a variable / a list or object
+    containing one — outside the grammar; None if the generator produced no constant position"""
+    for _ in range(tries):
+        g = Gen(rng, fragment_variables, max_depth=2)
+        g._violate = True
+        g._violated = 0
+        toks = g.document(size, executable=True, type_system=type_system)
+        if g._violated == 1:
+            return toks
+    return None
 
 
 IGNORED_RUNS = [" ", " ", "\n", ",", "\t", "  ", " ,\n", "\r\n", " # c, {\n", "﻿", "#\n", " \r"]
